@@ -20,8 +20,10 @@ type fnode struct {
 
 type seqCase struct {
 	Style    string   `json:"style"`
-	Start    string   `json:"start"` // empty | built | foreign
+	Start    string   `json:"start"` // empty | built | foreign | generated (document layer: tree read from a pdfgen document)
 	Build    []string `json:"build,omitempty"`
+	LeafMax  int      `json:"leaf_max,omitempty"` // generated: entries per leaf (fan-out max(2, LeafMax))
+	HexSeed  uint64   `json:"hex_seed,omitempty"` // generated: != 0: a third of the key strings are written in hex
 	Foreign  *fnode   `json:"foreign,omitempty"`
 	Universe []string `json:"universe"`
 	Ops      []op     `json:"ops"`
@@ -271,8 +273,28 @@ func genCase(rng *rand.Rand, doc string) *seqCase {
 	nextID := 0
 	x := rng.IntN(20)
 	switch {
-	case x < 8:
+	case x < 8 && doc == "" || x < 4:
 		c.Start = "empty"
+	case doc != "" && x < 12:
+		// a multi-level tree of foreign shape read from a generated document
+		c.Start = "generated"
+		m := 4 + rng.IntN(30)
+		if m > len(u) {
+			m = len(u)
+		}
+		sub := append([]string(nil), u...)
+		rng.Shuffle(len(sub), func(i, j int) { sub[i], sub[j] = sub[j], sub[i] })
+		sub = sub[:m]
+		sort.Strings(sub)
+		c.Build = sub
+		c.LeafMax = 1 + rng.IntN(6)
+		if rng.IntN(3) == 0 {
+			c.HexSeed = 1 + rng.Uint64N(1<<32)
+		}
+		for _, k := range c.Build {
+			present[k] = true
+		}
+		nextID = len(c.Build)
 	case x < 15 || doc != "":
 		c.Start = "built"
 		m := 5 + rng.IntN(36)
